@@ -87,6 +87,16 @@ InertRule(e) ==
     /\ (e.method \notin (ErrAllowed \cup InitMethods) => e.errres = "false")
     /\ e.health = "ok"
 
+\* Free zeroes the handle unless the instance is read-only (then: an error)
+FreeRule(e) ==
+  (e.mode = "free") =>
+    /\ e.panic = ""
+    /\ (e.prero = "false" => (e.postlive = "false" /\ e.errres = "false"))
+    /\ (e.prero = "true"  => (e.postlive = "true" /\ e.errres = "true" /\ Same(e)))
+
+\* an Init()-only Condition is initialised but empty: nothing may panic on it
+InitOnlyRule(e) == (e.mode = "initonly") => (e.panic = "" /\ e.health = "ok")
+
 QueryRule(e) ==
   (e.mode = "query" /\ e.method \in Queries) =>
     /\ e.panic = ""
@@ -101,6 +111,8 @@ Rules(e) ==
   (IF ReadOnlyArgRule(e) THEN {} ELSE {"ReadOnlyArgRule"}) \cup
   (IF ProbeRule(e) THEN {} ELSE {"ProbeRule"}) \cup
   (IF InertRule(e) THEN {} ELSE {"InertRule"}) \cup
+  (IF FreeRule(e) THEN {} ELSE {"FreeRule"}) \cup
+  (IF InitOnlyRule(e) THEN {} ELSE {"InitOnlyRule"}) \cup
   (IF QueryRule(e) THEN {} ELSE {"QueryRule"}) \cup
   (IF AwkwardRule(e) THEN {} ELSE {"AwkwardRule"})
 
